@@ -39,6 +39,13 @@ Definition check_ecase (c : ecase) : list N :=
     (if obs_match (ec_mode c) false (ec_go c) want_res then [] else [5%N]) ++
     corr.
 
+(* accept on one side, reject on the other (a panic is neither) *)
+Definition verdict_differs (model go : aobs) : bool :=
+  match model, go with
+  | AOk _, ASyn _ | AOk _, ACompErr | ASyn _, AOk _ | ACompErr, AOk _ => true
+  | _, _ => false
+  end.
+
 Definition check_case (c : anycase) : nat * list N :=
   match c with
   | CS c => (sc_id c,
@@ -46,7 +53,9 @@ Definition check_case (c : anycase) : nat * list N :=
              then [] else [6%N])
   | CE c => (ec_id c, check_ecase c)
   | CA c => (ac_id c,
-             if aobs_match (ac_off c) (aobs_of (Api.compile (ac_expr c))) (ac_go c) then [] else [7%N])
+             let m := aobs_of (Api.compile (ac_expr c)) in
+             (if aobs_match (ac_off c) m (ac_go c) then [] else [7%N]) ++
+             (if verdict_differs m (ac_go c) then [9%N] else []))
   | CT c => (tc_id c,
              if tobs_match (tobs_of (tokenize (tc_expr c))) (tc_go c) then [] else [8%N])
   | CC c => (cc_id c, if ccase_ok c then [] else [6%N])
